@@ -28,12 +28,14 @@ META = {
                   "lets a Release meet a blocked Acquire; this is modelled (successes never exceed Release calls), not flagged.",
 }
 
-ONCE_INV = ["TypeOK", "OnceOnly", "ExactlyOnce", "NoRetryAfterPanic", "OnePanicPerKey", "NoFaultNoStuck", "SameResult", "WaitsOnlyOnSameKey", "IndependentKeys",
+ONCE_INV = ["TypeOK", "OnceOnly", "ExactlyOnce", "NoRetryAfterPanic", "OnePanicPerKey", "NoFaultNoStuck", "NestedSameResult", "SameResult", "WaitsOnlyOnSameKey", "IndependentKeys",
             "TokenConservation", "ClosedImpliesCached", "OneLoaderPerKey", "LoaderKeyOK"]
 ONCE_PROP = ["MapStable", "Termination", "EveryGetReturns", "AbsSpec"]
 SEMA_INV = ["TypeOK", "HoldersBound", "CancelWhenFull", "BlocksWhenFull", "ReleaseNeverBlocks", "ZeroCapacity", "ReturnsCtxErr"]
 SEMA_PROP = ["ErrOnlyWhenDone", "OkTakesSlot", "DoneReturns"]
 KEYS = '{"a", "b"}'
+# the environment of the OnceConstructor model: no nested Gets, 16 processors, the real (limiter-free) design
+ENV = {"Dep": "<- NoDeps", "NCPU": 16, "Limiter": "FALSE"}
 
 
 def _par_tlc(ctx, jobs, par):
@@ -130,6 +132,8 @@ def run(ctx):
         "context kinds: WithCancel, WithDeadline/custom DeadlineExceeded, custom context with its own error, WithCancelCause, "
         "WithTimeoutCause / WithDeadlineCause (expired, self-expiring in the stress, or ended through a cause-cancelled parent), "
         "context.AfterFunc-decorated, nested child of a cause-cancelled parent; Acquire must return ctx.Err() itself, never context.Cause",
+        "the number of processors is part of the environment: schedules, sequential sequences and stress rounds also run in "
+        "processes with GOMAXPROCS=1 and 2; constructors may make a nested Get of another key (one level, no cycles)",
         "constructor faults are part of the environment: for the keys in the model's panic-key set the (single) invocation panics; "
         "the Get that ran it ends with the panic, the other Gets of the key stay blocked (accepted, not required), no Get may return a value",
         "Release is not tied to a holder in the model; with capacity 0 a Release may hand over to a blocked Acquire (unbuffered channel)",
@@ -158,19 +162,39 @@ def run(ctx):
 
     write_cfg(d / "OnceMC3_run.cfg", "FairSpec", {"Procs": "{1, 2, 3}", "Keys": KEYS, "KeyPlans": "<- OneCallPlans",
                                                 "ZeroKeySets": "<- SomeZeroKeys" if q else "<- AnyZeroKeys",
-                                                "PanicKeySets": "<- K0PanicKey" if q else "<- OnePanicKey"},
+                                                "PanicKeySets": "<- K0PanicKey" if q else "<- OnePanicKey", **ENV},
               invariants=ONCE_INV, properties=ONCE_PROP)
     job("OnceMC", "OnceMC3_run.cfg", "once-mc 3 procs x 2 keys")
     write_cfg(d / "OnceMC2_run.cfg", "FairSpec", {"Procs": "{1, 2}", "Keys": KEYS, "KeyPlans": "<- MixedPlans",
                                                 "ZeroKeySets": "<- SomeZeroKeys" if q else "<- AnyZeroKeys",
-                                                "PanicKeySets": "<- K0PanicKey" if q else "<- OnePanicKey"},
+                                                "PanicKeySets": "<- K0PanicKey" if q else "<- OnePanicKey", **ENV},
               invariants=ONCE_INV, properties=ONCE_PROP)
     job("OnceMC", "OnceMC2_run.cfg", "once-mc 2 procs x 1..2 Gets")
     if not q:
         write_cfg(d / "OnceMC3b_run.cfg", "Spec", {"Procs": "{1, 2, 3}", "Keys": KEYS, "KeyPlans": "<- SymTwoCallPlans",
-                                                   "ZeroKeySets": "<- SomeZeroKeys", "PanicKeySets": "<- NoPanicKeys"},
+                                                   "ZeroKeySets": "<- SomeZeroKeys", "PanicKeySets": "<- NoPanicKeys", **ENV},
                   invariants=ONCE_INV, properties=["MapStable"])
         job("OnceMC", "OnceMC3b_run.cfg", "once-mc 3 procs x 2 Gets (safety)", timeout=1500, workers=8)
+    # a constructor that itself Gets another key (nested Get by the same goroutine)
+    nested_env = dict(ENV, Dep="<- ANeedsB")
+    write_cfg(d / "OnceNestedMC_run.cfg", "FairSpec", {"Procs": "{1, 2}" if q else "{1, 2, 3}", "Keys": KEYS,
+                                                     "KeyPlans": "<- MixedPlans" if q else "<- OneCallPlans",
+                                                     "ZeroKeySets": "<- NoZeroKeys", "PanicKeySets": "<- NoPanicKeys", **nested_env},
+              invariants=ONCE_INV, properties=["MapStable", "Termination", "EveryGetReturns"])
+    job("OnceMC", "OnceNestedMC_run.cfg", "once-mc nested Get (a needs b)")
+    # The number of processors is a constant of the environment no property may depend on: the design alternative
+    # "NCPU construction slots, held from the fast-track miss to the return" must be REFUTED by IndependentKeys
+    # whenever NCPU is smaller than the number of callers -- and passes when it is large (so only the environment
+    # decides).  These runs are expected to end with the invariant violated / not violated, respectively.
+    lim = []
+    for name, procs, ncpu in (("1cpu", "{1, 2}", 1), ("2cpu", "{1, 2, 3}", 2), ("16cpu", "{1, 2, 3}", 16)):
+        write_cfg(d / ("OnceLimiter_%s_run.cfg" % name), "Spec",
+                  {"Procs": procs, "Keys": KEYS, "KeyPlans": "<- OneCallPlans", "ZeroKeySets": "<- NoZeroKeys",
+                   "PanicKeySets": "<- NoPanicKeys", "Dep": "<- NoDeps", "NCPU": ncpu, "Limiter": "TRUE"},
+                  invariants=["TypeOK", "OnceOnly", "SameResult", "IndependentKeys"])
+        lim.append(len(jobs))
+        job("OnceMC", "OnceLimiter_%s_run.cfg" % name, "once-mc limiter design, NCPU=%d (%s)" % (ncpu, "must pass" if ncpu == 16 else "must be refuted"),
+            workers=2, expect_ok=False)
     for n in (0, 1, 2):
         write_cfg(d / ("SemaMC%d_run.cfg" % n), "FairSpec",
                   {"Procs": "{1, 2, 3}", "N": n, "MaxCalls": 2 if q else 3, "MaxRel": 3 if q else 4,
@@ -196,30 +220,42 @@ def run(ctx):
     gen_inv = ["Emit", "GenOK", "NoStuck"]
     write_cfg(d / "OnceGen2_run.cfg", "GSpec", {"Procs": "{1, 2}", "Keys": KEYS, "KeyPlans": "<- SymTwoCallPlans",
                                                 "ZeroKeySets": "<- SomeZeroKeys" if q else "<- AnyZeroKeys",
-                                                "PanicKeySets": "<- OnePanicKey",
+                                                "PanicKeySets": "<- OnePanicKey", **ENV,
                                                 "OutFile": '"once_sched_2.ndjson"', "OutFileP": '"once_sched_2p.ndjson"'},
               invariants=gen_inv)
     job("OnceGen", "OnceGen2_run.cfg", "once-gen 2 procs")
     # binding G: sequential call sequences (one goroutine, up to 4 Gets over 3 keys (quick: 2), every zero-key subset, one panicking key)
     write_cfg(d / "OnceGenSeq_run.cfg", "GSpec", {"Procs": "{1}", "Keys": KEYS if q else '{"a", "b", "c"}', "KeyPlans": "<- SeqPlans",
-                                                  "ZeroKeySets": "<- AnyZeroKeys", "PanicKeySets": "<- OnePanicKey",
+                                                  "ZeroKeySets": "<- AnyZeroKeys", "PanicKeySets": "<- OnePanicKey", **ENV,
                                                   "OutFile": '"once_seq.ndjson"', "OutFileP": '"once_seqp.ndjson"'},
               invariants=gen_inv)
     job("OnceGen", "OnceGenSeq_run.cfg", "once-gen sequential", workers=2)
+    write_cfg(d / "OnceGenNested_run.cfg", "GSpec", {"Procs": "{1, 2}", "Keys": KEYS,
+                                                     "KeyPlans": "<- OneCallPlans" if q else "<- MixedPlans",
+                                                     "ZeroKeySets": "<- NoZeroKeys", "PanicKeySets": "<- NoPanicKeys", **nested_env,
+                                                     "OutFile": '"once_nested.ndjson"', "OutFileP": '"once_nestedp.ndjson"'},
+              invariants=gen_inv)
+    job("OnceGen", "OnceGenNested_run.cfg", "once-gen nested Get, 2 procs", workers=w if q else 8)
+    if not q:
+        write_cfg(d / "OnceGenNested3_run.cfg", "GSpec", {"Procs": "{1, 2, 3}", "Keys": KEYS, "KeyPlans": "<- OneCallPlans",
+                                                          "ZeroKeySets": "<- NoZeroKeys", "PanicKeySets": "<- NoPanicKeys", **nested_env,
+                                                          "OutFile": '"once_nested3.ndjson"', "OutFileP": '"once_nested3p.ndjson"'},
+                  invariants=gen_inv)
+        job("OnceGen", "OnceGenNested3_run.cfg", "once-gen nested Get, 3 procs (simulated)", simulate=3000, depth=90)
     if q:
         write_cfg(d / "OnceGen3_run.cfg", "GSpec", {"Procs": "{1, 2, 3}", "Keys": KEYS, "KeyPlans": "<- OneCallPlans",
-                                                    "ZeroKeySets": "<- AnyZeroKeys", "PanicKeySets": "<- OnePanicKey",
+                                                    "ZeroKeySets": "<- AnyZeroKeys", "PanicKeySets": "<- OnePanicKey", **ENV,
                                                     "OutFile": '"once_sched_3.ndjson"', "OutFileP": '"once_sched_3p.ndjson"'},
                   invariants=gen_inv)
         job("OnceGen", "OnceGen3_run.cfg", "once-gen 3 procs (simulated)", simulate=1200, depth=60)
     else:
         write_cfg(d / "OnceGen3_run.cfg", "GSpec", {"Procs": "{1, 2, 3}", "Keys": KEYS, "KeyPlans": "<- SymOneCallPlans",
-                                                    "ZeroKeySets": "<- SomeZeroKeys", "PanicKeySets": "<- OnePanicKey",
+                                                    "ZeroKeySets": "<- SomeZeroKeys", "PanicKeySets": "<- OnePanicKey", **ENV,
                                                     "OutFile": '"once_sched_3.ndjson"', "OutFileP": '"once_sched_3p.ndjson"'},
                   invariants=gen_inv)
         job("OnceGen", "OnceGen3_run.cfg", "once-gen 3 procs", timeout=1500, workers=8)
         write_cfg(d / "OnceGen3s_run.cfg", "GSpec", {"Procs": "{1, 2, 3}", "Keys": KEYS, "KeyPlans": "<- MixedPlans",
-                                                     "ZeroKeySets": "<- AnyZeroKeys", "PanicKeySets": "<- OnePanicKey",
+                                                     "ZeroKeySets": "<- AnyZeroKeys", "PanicKeySets": "<- OnePanicKey", **ENV,
                                                      "OutFile": '"once_sched_3s.ndjson"', "OutFileP": '"once_sched_3sp.ndjson"'},
                   invariants=gen_inv)
         job("OnceGen", "OnceGen3s_run.cfg", "once-gen 3 procs x 1..2 Gets (simulated)", simulate=4000, depth=90)
@@ -230,7 +266,13 @@ def run(ctx):
                    "OutFile": '"sema_sched_%d.ndjson"' % n}, invariants=["Emit", "GenOK"])
         job("SemaphoreGen", "SemaGen%d_run.cfg" % n, "sema-gen n=%d depth %d" % (n, depth), timeout=1500,
             workers=w if q else 8)
-    _par_tlc(ctx, jobs, par)
+    results = _par_tlc(ctx, jobs, par)
+    for i in lim:
+        r, want = results[i], (None if jobs[i]["label"].endswith("(must pass)") else "IndependentKeys")
+        if r.violated != want or (want is None and r.rc != 0):
+            raise CheckerError("limiter design run %r: expected violated=%s, got %s (rc=%d)\n%s"
+                               % (jobs[i]["label"], want, r.violated, r.rc, "\n".join(r.out.splitlines()[-30:])))
+    ctx.extra["limiter_design"] = "refuted by IndependentKeys for NCPU=1 (2 callers) and NCPU=2 (3 callers); passes for NCPU=16"
     mark("tlc_mc_and_generation")
     n2 = count_lines(d / "once_sched_2.ndjson")
     n3 = count_lines(d / "once_sched_3.ndjson")
@@ -246,8 +288,21 @@ def run(ctx):
     rjobs = [(["c17", "replay-once", d / "once_sched_2.ndjson", ctx.scratch / "once2.res", 1, "cycle"], "once2.res"),
              (["c17", "replay-once", d / "once_sched_3.ndjson", ctx.scratch / "once3.res", 1, "cycle"], "once3.res"),
              (["c17", "replay-once", d / "once_seq.ndjson", ctx.scratch / "onceseq.res", 1, "all"], "onceseq.res")]
+    rjobs.append((["c17", "replay-once", d / "once_nested.ndjson", ctx.scratch / "oncenested.res", 1, "cycle"], "oncenested.res"))
     if not q:
         rjobs.append((["c17", "replay-once", d / "once_sched_3s.ndjson", ctx.scratch / "once3s.res", 1, "cycle"], "once3s.res"))
+        rjobs.append((["c17", "replay-once", d / "once_nested3.ndjson", ctx.scratch / "oncenested3.res", 1, "cycle"], "oncenested3.res"))
+    # The ambient environment as configuration: the same schedules also in processes with one and two
+    # processors (GOMAXPROCS is read by the runtime at start, so runtime.GOMAXPROCS(0) is small when
+    # NewOnceConstructor runs): 2-process schedules, nested Gets and the sequential sequences with GOMAXPROCS=1,
+    # 3-process schedules (two callers parked on one key, a third asks for another) and nested Gets with 2.
+    envjobs = {}
+    for gmp, files in (("1", (("once_sched_2.ndjson", 8 if q else 2), ("once_nested.ndjson", 1 if q else 2), ("once_seq.ndjson", 1))),
+                       ("2", (("once_sched_3.ndjson", 1 if q else 4), ("once_nested.ndjson", 1 if q else 2)))):
+        for fname, every in files:
+            name = "gmp%s_%s.res" % (gmp, fname)
+            rjobs.append((["c17", "replay-once", d / fname, ctx.scratch / name, every, "cycle"], name))
+            envjobs[name] = {"GOMAXPROCS": gmp}
     # Schedules in which a constructor panics leave goroutines blocked for good inside syncutil (that is what
     # the code does); a process that has replayed many of them carries thousands of parked goroutines and its
     # wait-state evidence (goroutine dumps) gets slow.  They are replayed in batches, one short process each;
@@ -283,7 +338,7 @@ def run(ctx):
             name = "sema%d_%d.res" % (n, sh)
             rjobs.append((["c17", "replay-sema", d / ("sema_sched_%d.ndjson" % n), ctx.scratch / name, 1, sh, shards], name))
     with ThreadPoolExecutor(max_workers=4 if q else max(2, min(6, NCPU // 2))) as ex:
-        list(ex.map(lambda j: ctx.vh(j[0], timeout=2400), rjobs))
+        list(ex.map(lambda j: ctx.vh(j[0], timeout=2400, env=envjobs.get(j[1])), rjobs))
     tot = {}
     for _, name in rjobs:
         s = ctx.collect(ctx.scratch / name)
@@ -331,6 +386,11 @@ def run(ctx):
     sh = ctx.collect(ctx.scratch / "hwm.res")
     ctx.evaluations += sh["calls"]
     ctx.sample({"semaphore_hwm_stress": sh})
+    if ctx.mismatches:
+        # e.g. a Release that never returns: the goroutines of the remaining stress commands would hang, too
+        ctx.extra["free_running_stress"] = "stopped after the semaphore stress found violations"
+        builder.shutdown(wait=True)
+        return
     ev = 0
     tjobs, judge = [], []
 
@@ -338,6 +398,8 @@ def run(ctx):
         nonlocal ev
         ctx.vh(cmd, env={"VERIF_SEED": str(ctx.seed * 31 + seed_i)})
         s = ctx.collect(ctx.scratch / resname)
+        if ctx.mismatches:
+            return
         ev += s["events"]
         ctx.traces += s["rounds"] - 1
         write_cfg(d / cfgname, "TSpec", consts, invariants=invs, extra="POSTCONDITION Post" if hwm else "")
@@ -363,6 +425,10 @@ def run(ctx):
           {"Procs": "<- TraceProcs", "MaxObjs": 1000000, "MaxOps": 1000000, "TraceFile": '"pool_trace.ndjson"'},
           ["SingleOwner"], "Pool stress log", False)
     mark("stamped_stress")
+    if ctx.mismatches:
+        ctx.extra["free_running_stress"] = "stopped after the stamped stress found violations"
+        builder.shutdown(wait=True)
+        return
     results = _par_tlc(ctx, tjobs, max(2, NCPU // 2))
     for r, (module, tf, what, hwm) in zip(results, judge):
         _judge_trace(ctx, r, d, module, tf, what, hwm)
@@ -377,6 +443,15 @@ def run(ctx):
         ctx.vh(["c17", "race-once", ctx.scratch / "raceonce.res", 150 if q else 1500], race=True, ok_codes=(0, 66))
         sa = ctx.collect(ctx.scratch / "raceonce.res")
         nr = _race(ctx, "OnceConstructor")
+        # ... and a few rounds (incl. the slow-key and the panic rounds) with one and two processors
+        for gmp in ("1", "2"):
+            if ctx.mismatches:
+                break
+            ctx.vh(["c17", "race-once", ctx.scratch / ("raceonce_gmp%s.res" % gmp), 18 if q else 60], race=True, ok_codes=(0, 66),
+                   env={"GOMAXPROCS": gmp})
+            sg = ctx.collect(ctx.scratch / ("raceonce_gmp%s.res" % gmp))
+            sa["gets"] += sg["gets"]
+            nr += _race(ctx, "OnceConstructor, GOMAXPROCS=" + gmp)
         ctx.vh(["c17", "race-sema", ctx.scratch / "racesema.res", 20 if q else 150], race=True, ok_codes=(0, 66))
         sb = ctx.collect(ctx.scratch / "racesema.res")
         nr += _race(ctx, "ChanSemaphore")
@@ -406,7 +481,13 @@ def replay(ctx, path):
         if r.get("key", "").endswith("[%s]" % name):
             inst = name
     args = ["c17", mode, vf, ctx.scratch / "one.res", 1] + ([0, 1] if mode == "replay-sema" else [inst])
-    ctx.vh(args)
+    import re
+    m = re.search(r"\[GOMAXPROCS=(\d+)\]", r.get("key", ""))
+    key = re.sub(r" \[GOMAXPROCS=\d+\]", "", r.get("key", ""))
+    for name in ("error", "any", "intkey", "anyfn", "fn", "box", "chan", "map", "int"):
+        if key.endswith("[%s]" % name):
+            args[-1] = name
+    ctx.vh(args, env={"GOMAXPROCS": m.group(1)} if m else None)
     ctx.collect(ctx.scratch / "one.res")
     if ctx.mismatches:
         for m in ctx.mismatches:
